@@ -174,15 +174,41 @@ impl ToRange for Expression { #[verifier::external_body] fn to_range(&self) -> (
 """, module="formatters::expression"),
         Fn(EX, "find", impl_of="LeftmostRangeHang", mode="stub"),
         Fn(EX, "required_shape", impl_of="LeftmostRangeHang", mode="stub"),
+        RawFile("prelude/comments.rs"),
         Raw("""
-#[verifier::external_body] pub fn indented_comments(ctx: &Context, shape: Shape, comments: Vec<Token>) -> (r: Vec<Token>) { unimplemented!() /* .iter().flat_map(|x| vec![newline, indent, x.to_owned()]).collect() */ }
+// each comment of the list behind [newline, indent]: the comments are the same, in order (the flat_map closure, class B)
+#[verifier::external_body] pub fn indented_comments(ctx: &Context, shape: Shape, comments: Vec<Token>) -> (r: Vec<Token>)
+    ensures cmts(r@) == cmts(comments@) { unimplemented!() /* .iter().flat_map(|x| vec![newline, indent, x.to_owned()]).collect() */ }
+// the comments an operator token carries in front of / behind itself, and those in front of an expression (GetLeadingTrivia / GetTrailingTrivia)
+pub uninterp spec fn binop_lead_comments(b: BinOp) -> Seq<Token>;
+pub uninterp spec fn binop_trail_comments(b: BinOp) -> Seq<Token>;
+pub uninterp spec fn expr_lead_comments(e: Expression) -> Seq<Token>;
+pub uninterp spec fn binop_lead_trivia(b: BinOp) -> Seq<Token>;
+pub uninterp spec fn binop_trail_trivia(b: BinOp) -> Seq<Token>;
 """, module="formatters::expression"),
         Fn(EX, "hang_binop", contract="""
     ensures binop_id(r) == binop_id(binop),
         binop_nl(r), !binop_open(r), //# C01.hang_binop_starts_line
+        // the comments in front of the hung operator are: its own leading ones, its own trailing ones, those in front of the right operand
+        cmts(binop_lead_trivia(r)) == cmts(binop_lead_comments(binop)) + cmts(binop_trail_comments(binop)) + cmts(expr_lead_comments(*rhs)), //# C03.hang_binop_keeps_comments
+        forall|i: int| 0 <= i < binop_trail_trivia(r).len() ==> !is_comment_tok(#[trigger] binop_trail_trivia(r)[i]), //# C03.hang_binop_keeps_comments
 """, edits=[
+            # ghost snapshots behind the three statements that fetch comments, one proof block in front of the final call: the hints do not
+            # hang on the statements that move the comments, so a change that drops one of those fails the obligation instead of losing an anchor
+            After("let mut trailing_comments = binop.trailing_comments();", "let ghost tc0 = trailing_comments@; let ghost lc0 = leading_comments@;"),
+            Before("binop.update_trivia(", """proof {
+        let n = lc0 + tc0 + elc0;
+        lemma_cmts_concat(lc0, tc0); lemma_cmts_concat(lc0 + tc0, elc0);
+        let f = leading_comments@;
+        if f.len() == n.len() + 2 && f.take(n.len() as int) =~= n {
+            lemma_cmts_push(n, f[n.len() as int]); lemma_cmts_push(n.push(f[n.len() as int]), f[n.len() as int + 1]);
+            assert(f =~= n.push(f[n.len() as int]).push(f[n.len() as int + 1]));
+        }
+    }
+    """),
             Between("binop\n        .leading_comments()", ".collect::<Vec<_>>()", "indented_comments(ctx, shape, binop.leading_comments())", why="iterator chain (flat_map closure): each leading comment of the operator behind [newline, indent]"),
             Between("rhs\n        .leading_comments()", ".collect::<Vec<_>>()", "indented_comments(ctx, shape, rhs.leading_comments())", why="iterator chain (flat_map closure): each leading comment of the right operand behind [newline, indent]"),
+            After("let mut expression_leading_comments = indented_comments(ctx, shape, rhs.leading_comments());", "let ghost elc0 = expression_leading_comments@;"),
         ]),
         Fn(EX, "is_hang_binop_over_width", mode="stub"),
         Fn(EX, "binop_expression_contains_comments", mode="stub", contract="""
@@ -273,6 +299,7 @@ LABELS = {
     "C01.format_expression.line_safe": dict(props=["C01", "C02", "C03"], text="format_expression: same"),
     "C01.parenthesise_line_safe": dict(props=["C01", "C02", "C03"], text="parenthesise (kept parentheses): the expression starts a new line when `(` is followed by a line comment, and `)` starts a new line when the expression ends with one"),
     "C05.parenthesise_shape": dict(props=["C05", "C02"], text="parenthesise returns the expression inside one pair of parentheses"),
+    "C03.hang_binop_keeps_comments": dict(props=["C03"], text="hang_binop: the comments in front of the hung operator are exactly its own leading comments, its own trailing comments and the comments in front of the right operand, in that order; none behind it"),
     "C01.hang_binop_starts_line": dict(props=["C01", "C02"], text="hang_binop: the leading trivia it builds end with [newline, indent] (two real pushes) and the trailing trivia become one space: the operator starts a line and nothing is open behind it"),
     "C05.format_binop_same_operator": dict(props=["C05", "C02"], text="format_binop (real text, the fmt_op! expansion): every operator is mapped to the same operator; the wildcard arm is unreachable"),
     "C05.format_unop_same_operator": dict(props=["C05", "C02"], text="format_unop: same"),
